@@ -2,6 +2,7 @@ import RtcModel.C07Rtp
 import RtcModel.C07Ice
 import RtcModel.C07Dtls
 import RtcModel.C07Sctp
+import RtcModel.C07Media
 import RtcModel.Drv.Util
 /-! Driver for C07: one decoder model per stream; output `ok <digest>` / `err <error>` / `panic`. -/
 namespace RtcModel.Drv.C07
@@ -38,7 +39,18 @@ def bufStream (stream : String) : Option (List UInt8 → String) :=
   | "finished" => some fun bs => showRes (runB Dtls.finishedDecode bs) nats
   | "dcepopen" => some fun bs => showRes (runB Sctp.dcepOpenUnmarshal bs) nats
   | "dcepack" => some fun bs => showRes (runS Sctp.dcepAckUnmarshal bs) toString
+  | "udptl" => some fun bs => showRes (runS Media.udptlRecv bs) nats
   | _ => none
+
+def parsePk (t : String) : Option (Nat × Nat × Bool × Array UInt8) :=
+  match fields t with
+  | [sq, ts, m, hx] => do
+    let bs ← unhex hx
+    some (← sq.toNat?, ← ts.toNat?, m = "1", bs.toArray)
+  | _ => none
+
+def showSamples (l : List (List Nat)) : String :=
+  s!"{l.length}:" ++ ";".intercalate (l.map fun s => "/".intercalate (s.map toString))
 
 def handleSpecial (stream : String) (args : List String) : String :=
   match stream, args with
@@ -99,6 +111,10 @@ def handleSpecial (stream : String) (args : List String) : String :=
       | .err e _ => "err " ++ e
       | .panic s => if s = "hang" then "hang" else "panic"
     | none => "bad-hex"
+  | "h264", pks =>
+    match pks.mapM parsePk with
+    | some ps => showRes (Media.h264Run {} ps (Buf.ofList []) 0) (fun r => " ".intercalate (r.map showSamples))
+    | none => "bad-args"
   | "rtx", [hx] =>
     match unhex hx with
     | some bs => showRes (runS Ice.unwrapRtx bs) (fun r => match r with | none => "none" | some (o, l) => s!"{o} {l}")
